@@ -52,9 +52,9 @@ PrintParseU(u) ==
       dur == DurPrintCodes(c, u)
       ts  == TsSplit(c, u)
   IN /\ p.ok /\ p.strict /\ DtFieldsOK(p)
-     /\ DtAllowedP(txt, p, u, "i64") = {"V:" \o ToDec(c)}
+     /\ DtAllowedP(txt, p, u, "i64") = {Outcome(c, "i64")}       \* "O" where the unit cannot reach the year
      /\ CodesToStr(txt) = IsoPrint(c, u)
-     /\ DurTextDenotes(dur, c, u) /\ DurAllowed(dur, u, "i64") = {"V:" \o ToDec(c)}
+     /\ DurTextDenotes(dur, c, u) /\ DurAllowed(dur, u, "i64") = {Outcome(c, "i64")}
      /\ TsWellFormed(ts) /\ TsJoinNanos(ts.sec, ts.ns) = MulChain(c, NsChain(u))
      /\ SplitSeconds(mid, u) = [q |-> MulSmall(FromInt(d), 86400), r |-> Zero]
      /\ IsoPrint(mid, u) = DateTimeStr([y |-> FromInt(civ.y), m |-> civ.m, d |-> civ.d], 0, Zero, FracDigits(u))
